@@ -215,6 +215,7 @@ func GenStyle(t *rapid.T) Style {
 		SelfClose:   rapid.Bool().Draw(t, "selfclose"),
 		AttrNewline: rapid.IntRange(0, 4).Draw(t, "attrnl") == 0,
 		CharRefText: rapid.IntRange(0, 3).Draw(t, "charref") == 0,
+		Misc:        rapid.SampledFrom([]string{"", "", "", "nl", "nl", "crlf", "blank-lines", "comment", "pi", "lead-comment"}).Draw(t, "misc"),
 	}
 }
 
